@@ -9,6 +9,6 @@ CONSTANTS
   MaxRetries = 1000000
 INIT TraceInit
 NEXT TraceNext
-INVARIANTS WriterExcludesAll HeldImpliesExclusive ReaderExcludesWriterStart NoLostUpdate CleanExit
+INVARIANTS WriterExcludesAll HeldImpliesExclusive ReaderExcludesWriterStart NoLostUpdate CleanExit Durable CrashLeavesOldOrNew
 POSTCONDITION TraceAccepted
 CHECK_DEADLOCK FALSE
